@@ -516,6 +516,21 @@ def direct_types(ctx, rng, n):
                         ctx.violation("direct", "call-forms-differ-on-a-forward-only-stream",
                                       {"type": name, "endian": endian, "raw": raw.hex(), "outcomes": repr(outs),
                                        "want": repr(want)})
+                    # a view whose items are wider than a byte, holding exactly as many *items* as the type has bytes
+                    if name in ("char[8]", "uint16[4]", "wchar[3]", "uint32", "S"):
+                        width = {"char[8]": 8, "uint16[4]": 8, "wchar[3]": 6, "uint32": 4, "S": 4}[name]
+                        for fmt, isz in (("H", 2), ("I", 4)):
+                            if len(raw) != width:
+                                continue
+                            wide = memoryview(raw + bytes(range(0x30, 0x30 + width * (isz - 1)))).cast(fmt)
+                            ctx.evaluation(("direct-wide-view", name, endian, fmt, raw.hex()))
+                            ctx.cell("direct:memoryview-of-wide-items")
+                            outs2 = {"T(x)": _try(lambda: T(wide)), "T.read(x)": _try(lambda: T.read(wide)),
+                                     "T.reads(x)": _try(lambda: T.reads(wide))}
+                            if any(o != ("ok", want) for o in outs2.values()):
+                                ctx.violation("direct", "call-forms-differ-on-a-view-of-items-wider-than-a-byte",
+                                              {"type": name, "endian": endian, "format": fmt, "raw": raw.hex(),
+                                               "outcomes": repr(outs2), "want": repr(want)})
                     # buffers: bytes / bytearray / memoryview slice
                     for bname, buf in (("bytes", raw + b"zz"), ("bytearray", bytearray(raw + b"zz")),
                                        ("memoryview-slice", memoryview(blob)[p:])):
